@@ -86,12 +86,13 @@ def uni_world(orient="q0", frozen_bar=1, closes=(200000, 200013, 199991), fee_vo
     if orient == "q0":
         pool = uni.pool_q0()
         ticks = list(closes)
-        ranges = {"in": (199500, 200500), "lo": (198000, 199000), "hi": (201000, 202000)}
+        # edge-lo / edge-hi: ranges one of whose bounds is EXACTLY the price tick of bars 0 and 1 (the previous close lands on a range bound)
+        ranges = {"in": (199500, 200500), "lo": (198000, 199000), "hi": (201000, 202000), "edge-lo": (closes[0], closes[0] + 500), "edge-hi": (closes[0] - 500, closes[0])}
         in0, in1 = fee_vol
     else:
         pool = uni.pool_q1()
         ticks = [-t for t in closes]
-        ranges = {"in": (-200500, -199500), "lo": (-199000, -198000), "hi": (-202000, -201000)}
+        ranges = {"in": (-200500, -199500), "lo": (-199000, -198000), "hi": (-202000, -201000), "edge-lo": (-closes[0] - 500, -closes[0]), "edge-hi": (-closes[0], -closes[0] + 500)}
         in1, in0 = fee_vol
     raw = _raw("uni.raw", uni.raw_frame(ticks, in0, in1, 4 * 10**16, open_tick=ticks[0]))
     data = uni.prepared(raw, pool)
